@@ -4,7 +4,16 @@ Lean: Props/C10.lean (ℝ) over Scalar/ChiSq.lean.in; the Float instantiation of
 run by the driver.  Correspondence: Theory.chisq / Theory.pull on shipped and ad-hoc theories over
 random sub-multisets, permutations and re-slicings of the bundled points, asym ∈ {F,T}, with and
 without parameter overrides, versus the model fed with Theory.predict's values.
+
+Every case is ALSO compared with the property written out in Python list arithmetic (sum of squared pulls of
+the predictions, independent of the Lean driver): that reference decides found_input, and it keeps the check
+running when the model driver is unavailable.  The collection of points reaches Theory.chisq in every form the
+API accepts (anything iterable): DataSet, list, tuple, DataSet sum / slice, and one-shot iterators (generator
+expression, iter(), reversed(), itertools.chain / islice, filter, map) - the form rotates per pool, so each pool
+sees each form in every run.  Every pool contains points with errplus != errminus (bundled ones where the
+theory's points have them, and copies of pool points whose upper/lower uncertainties are set apart).
 """
+import itertools
 import math
 
 import common
@@ -12,6 +21,65 @@ import fixtures
 from common import f2hex, hex2f, relerr
 
 TOL = 1e-11
+
+# how the multiset `pts` (a list) is handed to Theory.chisq; (name, one-shot iterator?, maker)
+def _forms(g):
+    return [
+        ('DataSet', False, lambda pts: g.DataSet(pts)),
+        ('generator', True, lambda pts: (p for p in pts)),
+        ('list', False, lambda pts: list(pts)),
+        ('iter', True, lambda pts: iter(g.DataSet(pts))),
+        ('tuple', False, lambda pts: tuple(pts)),
+        ('chain', True, lambda pts: itertools.chain(pts[:len(pts) // 2], g.DataSet(pts[len(pts) // 2:]))),
+        ('DataSet-sum', False, lambda pts: (g.DataSet(pts[:len(pts) // 2]) + g.DataSet(pts[len(pts) // 2:])) if pts else g.DataSet(pts)),
+        ('reversed', True, lambda pts: reversed(pts[::-1])),
+        ('DataSet-slice', False, lambda pts: g.DataSet(pts[-1:] + pts)[1:] if pts else g.DataSet(pts)),
+        ('islice', True, lambda pts: itertools.islice(pts[-1:] + pts, 1 if pts else 0, None)),
+        ('filter', True, lambda pts: filter(lambda p: True, pts)),
+        ('map', True, lambda pts: map(lambda p: p, pts)),
+    ]
+
+
+def is_asym(p):
+    return getattr(p, 'errplus', getattr(p, 'err', None)) != getattr(p, 'errminus', getattr(p, 'err', None))
+
+
+def py_pulls(flo, asym):
+    """the property in list arithmetic: pulls of (prediction, value, err, errplus, errminus) quintuples"""
+    out = []
+    for k in range(0, len(flo), 5):
+        pred, val, err, ep, em = flo[k:k + 5]
+        d = pred - val
+        out.append(d / ((ep if d > 0 else em) if asym else err))
+    return out
+
+
+def with_asym(rng, th, pool, source, rep, name, nmin=2):
+    """make sure the pool holds points with errplus != errminus: bundled ones of the same source first, then copies of
+    pool points whose upper / lower uncertainties are set apart (the values and kinematics stay the bundled ones)"""
+    have = [p for p in pool if is_asym(p)]
+    more = [p for p in source if is_asym(p) and getattr(p, 'err', 0) and not any(p is q for q in pool)]
+    rng.shuffle(more)
+    add = []
+    for p in more:
+        if len(have) + len(add) >= nmin:
+            break
+        try:
+            float(th.predict(p))       # only points the theory can describe (a pool with one that raises is skipped as a whole)
+            add.append(p)
+        except Exception:
+            pass
+    rep.hist('pool.asym.bundled', len(have) + len(add))
+    k = 0
+    base = [p for p in pool if getattr(p, 'err', 0)]
+    while len(have) + len(add) < nmin and base:
+        c = base[k % len(base)].copy()
+        k += 1
+        c.errplus = c.err * rng.choice([1.25, 1.5, 2.0])
+        c.errminus = c.err * rng.choice([0.5, 0.75, 0.9])
+        add.append(c)
+        rep.hist('pool.asym.synthetic', name)
+    return pool + add
 
 
 def run(rep):
@@ -25,20 +93,22 @@ def run(rep):
             continue
         k = {'KM09a': 36, 'KM09b': 40}.get(name, 14 if quick else 60)
         pool = rng.sample(pts, min(k, len(pts)))
-        pools.append((name, th, pool))
+        pools.append((name, th, with_asym(rng, th, pool, pts, rep, name)))
     # ad-hoc combinations: constant CFFs with each formula set, on DVCS points carrying phi or FTn
     allp = [p for p in fixtures.dvcs_points() if getattr(p, 'observable', '') in
             ('XUU', 'XLU', 'ALU', 'AC', 'BSA', 'XUUw', 'XLUw') and 't' in p]
     for formulas in (['BMK', 'BM10'] if quick else ['BMK', 'hotfixedBMK', 'BM10ex', 'BM10', 'BM10tw2']):
         th = fixtures.adhoc('KellyEFF', formulas, {'ImH': 8.0, 'ReH': -3.0, 'ImHt': 2.0, 'ReE': 1.5})
         cand = [p for p in allp if hasattr(th, p.observable)]
-        pools.append(('adhoc-' + formulas, th, rng.sample(cand, min(25 if quick else 80, len(cand)))))
+        pools.append(('adhoc-' + formulas, th, with_asym(rng, th, rng.sample(cand, min(25 if quick else 80, len(cand))), cand, rep, 'adhoc-' + formulas)))
 
     ntrials = 30 if quick else 250
+    forms = _forms(g)
     lines, meta = [], []
-    for name, th, pool in pools:
+    for pi, (name, th, pool) in enumerate(pools):
         pool = [p for p in pool if getattr(p, 'err', 0)]
-        preds = {}
+        asym_idx = [i for i, p in enumerate(pool) if is_asym(p)]
+        rep.hist('pool.asym.points', len(asym_idx))
         for ovr in (None, 'override'):
             kw = {}
             if ovr:
@@ -52,13 +122,24 @@ def run(rep):
             except Exception as e:   # the theory cannot describe one of the points: skip the pool
                 rep.notes.append('pool %s skipped: %r' % (name, e))
                 continue
-            for _ in range(ntrials if not ovr else max(3, ntrials // 6)):
+            ntr = ntrials if not ovr else max(3, ntrials // 6)
+            for tr in range(ntr):
                 n = rng.choice([0, 1, 2, 3, 5, 8, 13])
                 idx = [rng.randrange(len(pool)) for _ in range(n)]     # multiset: repeats allowed
                 asym = rng.random() < 0.5
+                if tr < len(forms):
+                    # the first round over the delivery forms: non-empty, alternately asym, and with a point whose upper and
+                    # lower uncertainties differ (so that every form and the errplus/errminus branch are exercised in every pool)
+                    n = max(n, 2)
+                    idx = [rng.randrange(len(pool)) for _ in range(n)]
+                    asym = tr % 2 == 0
+                if asym_idx and n and (tr < len(forms) or rng.random() < 0.5):
+                    idx[rng.randrange(n)] = rng.choice(asym_idx)
+                # the delivery form rotates (offset per pool and override): every pool sees every form in every run
+                fname, oneshot, make = forms[(tr + pi + (5 if ovr else 0)) % len(forms)]
                 pts = [pool[i] for i in idx]
                 try:
-                    chi = float(th.chisq(g.DataSet(pts), asym=asym, **kw))
+                    chi = float(th.chisq(make(list(pts)), asym=asym, **kw))
                     impl = [chi]
                 except Exception as e:
                     impl = 'EXC:' + type(e).__name__
@@ -67,38 +148,61 @@ def run(rep):
                     p = pool[i]
                     flo += [pred[i], p.val, p.err, getattr(p, 'errplus', p.err), getattr(p, 'errminus', p.err)]
                 lines.append('c10.chisq %d %s' % (asym, ' '.join(map(f2hex, flo))))
-                meta.append(dict(kind='chisq', theory=name, asym=asym, override=kw.get('parameters'),
-                                 points=[(getattr(pool[i], 'id', None), i) for i in idx],
+                meta.append(dict(kind='chisq', theory=name, asym=asym, override=kw.get('parameters'), delivered_as=fname, oneshot=oneshot,
+                                 points=[(getattr(pool[i], 'id', None), i) for i in idx], flo=flo,
                                  preds=[pred[i] for i in idx], impl=impl, th=th, pts=pts, kw=kw))
                 rep.hist('chisq.n', n)
                 rep.hist('chisq.asym', asym)
                 rep.hist('chisq.theory', name)
+                rep.hist('chisq.delivered_as', fname)
+                if asym:
+                    rep.hist('chisq.asym.points-with-errplus!=errminus', sum(1 for p in pts if is_asym(p)))
             if not ovr:
-                for i, p in enumerate(pool[:10]):
+                for i, p in list(enumerate(pool))[:10]:
                     try:
                         impl = [float(th.pull(p))]
                     except Exception as e:
                         impl = 'EXC:' + type(e).__name__
-                    lines.append('c10.pull ' + ' '.join(map(f2hex, [
-                        pred[i], p.val, p.err, getattr(p, 'errplus', p.err), getattr(p, 'errminus', p.err)])))
-                    meta.append(dict(kind='pull', theory=name, point=(getattr(p, 'id', None), i),
+                    flo = [pred[i], p.val, p.err, getattr(p, 'errplus', p.err), getattr(p, 'errminus', p.err)]
+                    lines.append('c10.pull ' + ' '.join(map(f2hex, flo)))
+                    meta.append(dict(kind='pull', theory=name, point=(getattr(p, 'id', None), i), flo=flo,
                                      preds=[pred[i]], impl=impl, th=th, pts=[p], kw={}))
-    out = common.run_driver(lines)
+    # ---- the Lean model (Float instantiation of the text the theorems are about) ----
+    try:
+        out = common.run_driver(lines)
+    except common.ModelUnavailable as ex:
+        out = [None] * len(lines)
+        rep.violation('model-unavailable', 'the Lean model driver of C10 could not be run (%s): every case below is compared with the '
+                      'sum of squared pulls in Python list arithmetic only' % str(ex)[:300], dict(reason=str(ex)[:300]), found_input=False)
     for line, m, o in zip(lines, meta, out):
-        toks = o.split()
-        model = [hex2f(t) for t in toks] if o != 'bad-op' else None
-        sample = {k: m[k] for k in m if k not in ('th', 'pts', 'kw', 'preds')}
-        rep.case(m['kind'], line, nontrivial=len(m['pts']) > 0, sample=sample)
-        bad = None
-        if model is None or isinstance(m['impl'], str):
-            bad = 'impl=%s model=%s' % (m['impl'], o[:40])
-        else:
-            scale = sum(x * x for x in model[1:]) if m['kind'] == 'chisq' else 0.0
-            if relerr(m['impl'][0], model[0], scale * 1e-3) > TOL:
+        model = None
+        if o is not None and o != 'bad-op':
+            model = [hex2f(t) for t in o.split()]
+        sample = {k: m[k] for k in m if k not in ('th', 'pts', 'kw', 'preds', 'flo')}
+        rep.case(m['kind'], (line, m.get('delivered_as')), nontrivial=len(m['pts']) > 0, sample=sample)
+        # the property in Python list arithmetic on the predictions taken before (independent of the driver)
+        pulls = py_pulls(m['flo'], bool(m.get('asym')))
+        pyref = math.fsum(x * x for x in pulls) if m['kind'] == 'chisq' else pulls[0]
+        scale = math.fsum(x * x for x in pulls) if m['kind'] == 'chisq' else 0.0
+        bad = modelbad = None
+        if isinstance(m['impl'], str):
+            bad = 'impl=%s' % m['impl']
+        elif relerr(m['impl'][0], pyref, scale * 1e-3) > TOL:
+            bad = 'impl=%r, list arithmetic on the predictions gives %r' % (m['impl'][0], pyref)
+        if o is not None:
+            if model is None:
+                modelbad = 'model=%s' % o[:40]
+            elif relerr(pyref, model[0], scale * 1e-3) > TOL:
+                modelbad = 'model=%r, list arithmetic on the same numbers gives %r' % (model[0], pyref)
+            elif not bad and relerr(m['impl'][0], model[0], scale * 1e-3) > TOL:
                 bad = 'impl=%r model=%r' % (m['impl'][0], model[0])
+        if modelbad and not bad:
+            rep.violation('model/%s' % m['kind'], '%s: the Lean model and the sum of squared pulls in Python disagree while the code agrees '
+                          'with the latter (%s)' % (m['kind'], modelbad), dict(sample, protocol_line=line), found_input=False)
+            continue
         if not bad:
             continue
-        # failing-input search: evaluate the property on the real code alone
+        # failing-input search: evaluate the property on the real code alone (fresh predictions, the points as a plain list)
         th, pts, kw = m['th'], m['pts'], m['kw']
         direct = None
         try:
@@ -106,23 +210,30 @@ def run(rep):
             for p in pts:
                 d = float(th.predict(p, **kw)) - p.val
                 if m.get('asym'):
-                    pulls.append(d / (p.errplus if d > 0 else p.errminus))
+                    pulls.append(d / (getattr(p, 'errplus', p.err) if d > 0 else getattr(p, 'errminus', p.err)))
                 else:
                     pulls.append(d / p.err)
             direct = math.fsum(x * x for x in pulls) if m['kind'] == 'chisq' else pulls[0]
         except Exception as e:
             direct = 'EXC:' + type(e).__name__
         impl0 = m['impl'][0] if not isinstance(m['impl'], str) else m['impl']
-        confirmed = isinstance(direct, str) or isinstance(impl0, str) or relerr(impl0, direct) > 1e-9
+        # a failing input is claimed only when the harness's own evaluation of the property succeeded and differs
+        confirmed = (not isinstance(direct, str)) and (isinstance(impl0, str) or relerr(impl0, direct, scale * 1e-3) > 1e-9)
         key = '%s/%s/%s' % (m['kind'], 'asym' if m.get('asym') else 'sym',
                             'exception' if isinstance(impl0, str) else 'value')
-        rep.violation(key, '%s of theory %s on %d point(s): code returns %r, sum of squared pulls of its own '
-                      'predictions is %r (%s)' % (m['kind'], m['theory'], len(pts), impl0, direct, bad),
+        if m.get('oneshot'):
+            key += '/one-shot-iterable'
+        rep.violation(key, '%s of theory %s on %d point(s)%s: code returns %r, sum of squared pulls of its own '
+                      'predictions is %r (%s)' % (m['kind'], m['theory'], len(pts),
+                                                  ' handed over as %s' % m['delivered_as'] if m.get('delivered_as') else '',
+                                                  impl0, direct, bad),
                       dict(sample, preds=m['preds'], direct=direct, protocol_line=line),
                       found_input=confirmed)
     if not ok and not rep.violations:
         rep.violation('lean', 'Lean side of C10 no longer checks: ' + why, dict(reason=why), found_input=False)
     rep.assumptions += ['Theory.predict is taken as the prediction (the theory is a parameter of the model)',
+                        'any iterable of DataPoints is a legal collection of measurements (Theory.chisq documents "points"; it iterates); '
+                        'DataPoint copies with errplus/errminus set apart are legal measurements',
                         'float summation compared within 1e-11 relative (theorems are over ℝ)']
     return rep.finish(level='proof', checker_cmd='lake build Props.C10; #print axioms; gepdriver c10.* vs Theory.chisq/pull',
                       trusted=['Lean 4.33 kernel', 'Scalar/ChiSq.lean.in instantiated at Float and ℝ (same text)',
